@@ -15,8 +15,8 @@ EXTRACT = ("theories/Extract/XC05.v", "c05",
 PYX = {"_cpmorphology2.pyx": ["skeletonize_loop", "index_lookup", "prepare_for_index_lookup",
                               "extract_from_image_lookup"]}
 CASE_TIMEOUT = 60
-RULE = ("exhaustive: every binary image of every shape up to 3x3 plus 3x4, 2x4, 4x2, 1x5, 5x1 (thorough: also 4x3, 4x4, "
-        "3x5, 5x3, 2x5, 5x2) through thin(None), binary_shrink(-1) and skeletonize_loop (current table, a pseudo-random "
+RULE = ("exhaustive: every binary image of every shape up to 3x3 plus 2x4, 4x2, 1x5, 5x1 and 700 sampled 3x4/4x3/4x4 images "
+        "(thorough: all of 3x4, 4x3, 4x4, 3x5, 5x3, 2x5, 5x2) through thin(None), binary_shrink(-1) and skeletonize_loop (current table, a pseudo-random "
         "order per image); random: shapes skewed to 1xN/Nx1/2x2/3x3 up to 26x26 (thorough 40x40), long images 200x3 / "
         "3x200 (thorough 900x3, 3x900, 900x2, 1x900), contents all-0, all-1, noise at densities 0.1-0.98, smooth blobs, "
         "rings / nested rings, lines, 2x2 blocks, border-touching frames, checkerboards, serpentines and spirals "
@@ -263,9 +263,9 @@ def _corpus():
 
 
 def _exhaustive_shapes(ctx):
-    shapes = [(h, w) for h in range(1, 4) for w in range(1, 4)] + [(3, 4), (2, 4), (4, 2), (1, 5), (5, 1)]
+    shapes = [(h, w) for h in range(1, 4) for w in range(1, 4)] + [(2, 4), (4, 2), (1, 5), (5, 1)]
     if not ctx.quick():
-        shapes += [(4, 3), (4, 4), (3, 5), (5, 3), (2, 5), (5, 2)]
+        shapes += [(3, 4), (4, 3), (4, 4), (3, 5), (5, 3), (2, 5), (5, 2)]
     return shapes
 
 
@@ -378,10 +378,18 @@ def generate(ctx):
             cases.append(_mk("shrink", img, h, w, it=-1))
             cases.append(_mk("loop", img, h, w, order=_rand_order(rng, img)))
         ctx.count("exhaustive:%dx%d" % (h, w), 1 << (h * w))
+    if ctx.quick():       # a sample of the 3x4 / 4x3 / 4x4 images that are exhaustive in the thorough tier
+        for _ in range(700):
+            h, w = [(3, 4), (4, 3), (4, 4)][int(rng.randint(0, 3))]
+            img = _img_from_code(h, w, int(rng.randint(0, 1 << (h * w))))
+            cases.append(_mk("thin", img, h, w, it=None))
+            cases.append(_mk("shrink", img, h, w, it=-1))
+            cases.append(_mk("loop", img, h, w, order=_rand_order(rng, img)))
+        ctx.count("sampled:3x4,4x3,4x4", 700)
     cnt = lambda k: ctx.count(k)
     rnd = []
     for fn, nq, nt in (("thin", 450, 3000), ("shrink", 450, 3000), ("lookup", 250, 2000), ("loop", 350, 3000),
-                       ("skel_ord", 170, 1400), ("skel", 170, 1400)):
+                       ("skel_ord", 140, 1400), ("skel", 140, 1400)):
         for _ in range(ctx.n(nq, nt)):
             rnd.append(_rand_case(rng, fn, big, cnt))
     for _ in range(ctx.n(70, 500)):
